@@ -105,11 +105,11 @@ def r_cli2(root):
         for g in bad:
             out.append(Finding("C30", "C30.d", CK, "check", ast.unparse(g), "the per-file metamodel lookup is skipped once a metamodel has been found: later files of another language are checked with the first file's language (wrong exit code both ways)", witness="textx check model.tx model.dsl  without --grammar/--language"))
     # ---- C30.e
-    t2 = load(root, GN); gf = find(t2, "generate.generate")
+    t2 = load(root, GN); gf = find_i(root, GN, "generate.generate.generate")
     rs = [r for r in ast.walk(gf) if isinstance(r, ast.Raise) and "must be provided" in ast.unparse(r)]
     if not rs: raise AnalysisError("generate: mandatory-parameter error not found")
     for r in rs:
-        fg = sem.info(enclosing_func(r))
+        fg = sem.info(gf)
         inst += 1; bad = []
         for g, pol in fg.guards(r):
             def truth_of_given(tst):
